@@ -491,8 +491,13 @@ class Balancer:
 
         # TODO: what if this is a set value, but *not* the same as other_side
         if claripy.backends.vsa.identical(left_side, other_side):
+            other_low = truism.args[1][len(truism.args[1]) - num_zeroes - 1 : 0]
+            if not claripy.backends.vsa.identical(truism.args[1], claripy.SignExt(num_zeroes, other_low)):
+                # the other side is not the sign extension of its low part (0b01001 has the top bit of a non-negative
+                # value, but its low four bits are negative): the comparison cannot be carried over to the low parts
+                return truism
             # We can safely eliminate this layer of ZeroExt
-            return Bool(truism.op, (truism.args[0].args[1], truism.args[1][len(truism.args[1]) - num_zeroes - 1 : 0]))
+            return Bool(truism.op, (truism.args[0].args[1], other_low))
 
         return truism
 
